@@ -196,7 +196,8 @@ Definition client_receive (name : N) (pub : list (N * list (shard * option N))) 
 Inductive op :=
 | OpApply (cfg : cconfig)
 | OpDeleted (name : N) (id : Z)
-| OpMeta (name : N) (id : Z) (st : sstatus) (term : Z) (leader : option N) (ens : list N).
+| OpMeta (name : N) (id : Z) (st : sstatus) (term : Z) (leader : option N) (ens : list N)
+| OpRestart (cfg : cconfig).
 
 Definition find_shard (name : N) (id : Z) (st : cstatus) : option smeta :=
   match ns_lookup name (st_ns st) with
@@ -209,7 +210,10 @@ Section Run.
   Variable supplier : S -> nsconfig -> cstatus -> option (list N) * S.
 
   (* One step of the coordinator.
-     OpApply: ConfigChanged / NewCoordinator; when ApplyClusterChanges panics nothing is stored.
+     OpApply: ConfigChanged; when ApplyClusterChanges panics nothing is stored.
+     OpRestart: the coordinator is restarted (or fails over) and finds configuration [cfg]: NewCoordinator loads
+       the STORED status and runs ApplyClusterChanges on it -- nothing is reset, in particular not
+       ShardIdGenerator, also when the stored status has no namespace left.
      OpDeleted: shardController.deleteShard -> DeleteShardMetadata; the controller gets there only
        through DeleteShard(), which the coordinator invokes for shards it has marked Deleting, hence the guard.
      OpMeta: a shard controller writes back its own copy of the metadata after an election step: new
@@ -219,7 +223,7 @@ Section Run.
   Definition step (s : cstatus * S) (o : op) : cstatus * S :=
     let (st, sup) := s in
     match o with
-    | OpApply cfg =>
+    | OpApply cfg | OpRestart cfg =>
       match apply_cluster_changes S supplier cfg st sup with
       | (None, sup1) => (st, sup1)
       | (Some (st1, _, _), sup1) => (st1, sup1)
@@ -244,13 +248,14 @@ End Run.
 (* every shard count of every configuration of the history is in 1..65536 *)
 Definition cfg_in_domain (cfg : cconfig) : Prop :=
   Forall (fun nc => 1 <= nc_count nc /\ nc_count nc <= 65536) (cfg_ns cfg).
-Definition op_in_domain (o : op) : Prop := match o with OpApply cfg => cfg_in_domain cfg | _ => True end.
+Definition op_in_domain (o : op) : Prop :=
+  match o with OpApply cfg | OpRestart cfg => cfg_in_domain cfg | _ => True end.
 
 (* shards requested by the history (an upper bound of what ShardIdGenerator can reach) *)
 Definition requested_cfg (cfg : cconfig) : Z :=
   fold_right (fun nc acc => (Z.of_N (nc_count nc) + acc)%Z) 0%Z (cfg_ns cfg).
 Definition requested (ops : list op) : Z :=
-  fold_right (fun o acc => match o with OpApply cfg => (requested_cfg cfg + acc)%Z | _ => acc end) 0%Z ops.
+  fold_right (fun o acc => match o with OpApply cfg | OpRestart cfg => (requested_cfg cfg + acc)%Z | _ => acc end) 0%Z ops.
 
 (* ---- the scripted supplier of the correspondence harness ---- *)
 
